@@ -322,6 +322,10 @@ type fnVar struct {
 	pos      token.Pos // declaration position (locals)
 	rangeKey bool      // the counter of a range loop: must not be assigned in the body
 	ptr      bool      // a parameter/receiver of type *M (M a map type): *x denotes the variable
+	// the range variable of `for i, c := range d.field` over a list of distinct pointers: c stands
+	// for element aliasIdx of aliasOf, a store through it is written back there at once
+	aliasOf, aliasIdx *fnVar
+	distinctPtr       bool // a []*S field under the spec distinct:
 }
 
 type fnParam struct {
@@ -332,6 +336,7 @@ type fnParam struct {
 	// a read-only pointer to a struct of the file (c *Chunk): one argument per scalar field read
 	ptrFields []string
 	ptrVars   []*fnVar
+	ptrStruct *ast.TypeSpec
 }
 
 type fnFunc struct {
@@ -395,9 +400,12 @@ type fnGen struct {
 	writes  map[string][]string
 	foreign map[string][]*ast.File // parsed packages of the same module, by import path
 	// "F.param": function-typed parameters declared monadic by the spec monadic:F.param
-	monadicSpecs []string
-	coqNames     map[*ast.TypeSpec]string // struct types declared inside a function: <function>_<name>
-	basicNamed   map[string]ast.Expr      // type EditOp byte: the underlying type
+	monadicSpecs   []string
+	owned          map[string]bool          // "Type.field": a slice field the struct owns (spec owned:...): its elements, by value
+	distinct       map[string]bool          // "Type.field": a []*S field whose pointers are pairwise distinct and non-nil (spec distinct:...)
+	foreignStructs map[*ast.TypeSpec]string // struct types of other packages used here -> their package
+	coqNames       map[*ast.TypeSpec]string // struct types declared inside a function: <function>_<name>
+	basicNamed     map[string]ast.Expr      // type EditOp byte: the underlying type
 }
 
 type fnBind struct {
@@ -563,6 +571,12 @@ func (c *fnCtx) goType(e ast.Expr) *fnType {
 		if u, ok := c.g.basicNamed[v.Name]; ok && (v.Obj == nil || v.Obj.Kind == ast.Typ) {
 			return c.goType(u) // type EditOp byte
 		}
+		if t := c.foreignBasic(v.Name); t != nil {
+			return t // ... of the package whose declarations are being read
+		}
+		if a := c.g.aliasTarget(v.Name); a != nil && c.foreignPkg == "" {
+			return c.goType(a) // type Edit = slice.Edit[string]
+		}
 		if t := c.structTypeOf(v); t != nil {
 			return t
 		}
@@ -581,10 +595,16 @@ func (c *fnCtx) goType(e ast.Expr) *fnType {
 				if t := c.foreignNamedMapTypeOf(sel, args); t != nil {
 					return t
 				}
+				if t := c.foreignStructTypeOf(sel, args); t != nil {
+					return t
+				}
 			}
 		}
 	case *ast.SelectorExpr:
 		if t := c.foreignNamedMapTypeOf(v, nil); t != nil {
+			return t
+		}
+		if t := c.foreignStructTypeOf(v, nil); t != nil {
 			return t
 		}
 	case *ast.StarExpr:
@@ -701,7 +721,8 @@ func (c *fnCtx) typeParams(fl *ast.FieldList) {
 func fnGenerate(f *ast.File, specs []string) (string, []string) {
 	g := &fnGen{file: f, funcs: map[string]*fnFunc{}, byCall: map[string]*fnFunc{}, structs: map[string]*ast.TypeSpec{}, consts: pkgConsts(f),
 		ifaces: map[string]*ast.TypeSpec{}, named: map[string]*ast.TypeSpec{}, usedStructs: map[string]bool{}, recordText: map[string]string{}, writes: map[string][]string{},
-		foreign: map[string][]*ast.File{}, coqNames: map[*ast.TypeSpec]string{}, basicNamed: map[string]ast.Expr{}}
+		foreign: map[string][]*ast.File{}, coqNames: map[*ast.TypeSpec]string{}, basicNamed: map[string]ast.Expr{},
+		owned: map[string]bool{}, distinct: map[string]bool{}}
 	for _, d := range f.Decls {
 		if gd, ok := d.(*ast.GenDecl); ok && gd.Tok == token.TYPE {
 			for _, s := range gd.Specs {
@@ -736,6 +757,18 @@ func fnGenerate(f *ast.File, specs []string) (string, []string) {
 			// monadic:F.param -- the function-typed parameter of F is called through the res monad
 			// (callers in other files hand it function literals that can panic)
 			g.monadicSpecs = append(g.monadicSpecs, strings.TrimPrefix(sp, "monadic:"))
+			continue
+		}
+		if strings.HasPrefix(sp, "owned:") || strings.HasPrefix(sp, "distinct:") {
+			// owned:Chunk.Edits,Edit.X -- slice fields held by value; distinct:Diff.Chunks -- a list of distinct pointers
+			i := strings.IndexByte(sp, ':')
+			for _, k := range strings.Split(sp[i+1:], ",") {
+				if sp[:i] == "owned" {
+					g.owned[k] = true
+				} else {
+					g.distinct[k] = true
+				}
+			}
 			continue
 		}
 		if strings.HasPrefix(sp, "writes:") {
